@@ -396,7 +396,8 @@ class Contract:
 
     def __init__(self, qualname, params, requires=(), ensures=(), invariants=None, abstract=None,
                  modifies=(), asserts="prove", ghost=None, bounds="prove", records=None, result=None,
-                 decreases=None, lemmas=None, notes="", raises_ok=False, inline=(), returns_ref=None):
+                 decreases=None, lemmas=None, notes="", raises_ok=False, inline=(), returns_ref=None, consts=(),
+                 defaults=None):
         self.qualname, self.params = qualname, params
         self.requires, self.ensures = list(requires), list(ensures)
         self.invariants = invariants or {}
@@ -412,6 +413,8 @@ class Contract:
         self.notes = notes
         self.raises_ok = raises_ok
         self.inline = inline
+        self.consts = set(consts)
+        self.defaults = defaults or {}
 
 
 def parse_kind(s, records=None):
@@ -698,6 +701,13 @@ class Executor:
         outs = []
         for st2, v in self.eval_fork(s.test, st):
             cond = to_bool(v)
+            if z3.is_false(z3.simplify(cond)):
+                # `assert False`: the path must be unreachable (obligation), and it ends here
+                if self.c.asserts == "prove":
+                    self.emit(f"assert:{self.c.qualname}:L{s.lineno - self.fn.lineno}:unreachable", "assert", st2, z3.BoolVal(False), s,
+                              note="assert False is unreachable")
+                outs.append(Outcome("raise", st2))
+                continue
             if self.c.asserts == "prove":
                 self.emit(f"assert:{self.c.qualname}:L{s.lineno - self.fn.lineno}", "assert", st2, cond, s,
                           note=ast.unparse(s.test))
@@ -1120,7 +1130,7 @@ class Executor:
             return v
         if e.id in ("True", "False", "None"):
             return {"True": True, "False": False, "None": None}[e.id]
-        if e.id in BUILTINS:
+        if e.id in BUILTINS or e.id in self.c.consts:
             return ConstV(e.id)
         raise VCError(f"unknown name {e.id} at line {getattr(e, 'lineno', '?')}")
 
@@ -1215,6 +1225,12 @@ class Executor:
             x = z3.Int("x!set")
             sa, sb = st.deref(a), st.deref(b)
             return SetV(z3.Lambda([x], z3.And(z3.Select(sa.mem, x), z3.Not(z3.Select(sb.mem, x)))))
+        if isinstance(st.deref(a), SeqV) and not isinstance(st.deref(b), (SeqV, SetV)) and isinstance(op, (ast.Div, ast.Mult, ast.Add, ast.Sub)):
+            # numpy-style elementwise operation of a 1-D array with a scalar
+            seq = st.deref(a)
+            i = z3.Int(f"i!ew{next(_fresh_counter)}")
+            elem = self.arith(op, seq.elem.wrap(z3.Select(seq.arr, i)), b, st, node)
+            return SeqV(seq.len, z3.Lambda([i], to_z3(elem)), kind_of(elem))
         ka, kb = kind_of(a), kind_of(b)
         real = ka is RealK or kb is RealK or isinstance(op, ast.Div)
         k = RealK if real else IntK
@@ -1314,6 +1330,10 @@ class Executor:
         if isinstance(da, SetV) and isinstance(db, SetV) and isinstance(op, (ast.Eq, ast.NotEq)):
             r = self.forall_int(lambda i: z3.Select(da.mem, i) == z3.Select(db.mem, i))
             return r if isinstance(op, ast.Eq) else z3.Not(r)
+        if isinstance(da, SeqV) and not isinstance(db, (SeqV, SetV, TupleV)) and isinstance(op, (ast.Lt, ast.LtE, ast.Gt, ast.GtE)):
+            i = z3.Int(f"i!ec{next(_fresh_counter)}")
+            elem = self.cmp(op, da.elem.wrap(z3.Select(da.arr, i)), db, st)
+            return SeqV(da.len, z3.Lambda([i], to_bool(elem)), BoolK)
         if isinstance(da, OptV) or isinstance(db, OptV):
             da, db = self.as_int(da, st, None), self.as_int(db, st, None)
         ka, kb = kind_of(da), kind_of(db)
@@ -1544,6 +1564,12 @@ class Executor:
             d = st.deref(recv)
             if isinstance(d, RecV) and f.attr in self.contracts:
                 return self.call_contract(self.contracts[f.attr], e, st, recv=recv)
+            if isinstance(d, ConstV) and isinstance(d.obj, str):
+                dotted = (d.obj + "." + f.attr).replace(".", "_")
+                x = getattr(self, "x_" + dotted, None)
+                if x is not None:
+                    return x(e, st)
+                raise VCError(f"external call {d.obj}.{f.attr} at line {getattr(e, 'lineno', '?')} is not modelled")
             m = getattr(self, "m_" + f.attr, None)
             if m is not None:
                 return m(e, recv, st)
@@ -1757,6 +1783,46 @@ class Executor:
     def b_old(self, e, st):
         raise VCError("use old_<name>")
 
+    # ---- modelled externals (assumed contracts, listed in evidence)
+    CNT = z3.Function("cnt", z3.ArraySort(z3.IntSort(), z3.BoolSort()), z3.IntSort(), z3.IntSort())
+
+    def count_true(self, arr, n, st):
+        """number of True among arr[0..n): uninterpreted cnt with its recursive definition and the
+        (separately proved, see contracts/configs.py lemma cnt_bounds) bounds 0 <= cnt <= n"""
+        m = fresh("m", z3.IntSort())
+        c = Executor.CNT
+        if not z3.is_const(arr):
+            nm = fresh("flags", z3.ArraySort(z3.IntSort(), z3.BoolSort()))
+            st.pc.append(z3.ForAll([m], z3.Select(nm, m) == z3.Select(arr, m)))
+            arr = nm
+        st.pc.append(c(arr, 0) == 0)
+        st.pc.append(z3.ForAll([m], z3.Implies(m >= 1, c(arr, m) == c(arr, m - 1) + z3.If(z3.Select(arr, m - 1), 1, 0)),
+                               patterns=[c(arr, m)]))
+        st.pc.append(z3.ForAll([m], z3.Implies(m >= 0, z3.And(c(arr, m) >= 0, c(arr, m) <= m)), patterns=[c(arr, m)]))
+        return c(arr, to_z3(n, IntK))
+
+    def x_np_sum(self, e, st):
+        v = st.deref(self.eval(e.args[0], st))
+        if isinstance(v, SeqV) and v.elem is BoolK:
+            return self.count_true(v.arr, v.len, st)
+        raise VCError("np.sum of a non-boolean array")
+
+    def x_scipy_linalg_norm(self, e, st):
+        v = st.deref(self.eval(e.args[0], st))
+        if not isinstance(v, SeqV):
+            raise VCError("norm of non-array")
+        nrm = fresh("norm", z3.RealSort())
+        st.pc.append(nrm >= 0)   # assumed contract of scipy.linalg.norm
+        return nrm
+
+    def b_count_gt_div(self, e, st):
+        """spec function: #{i : seq[i]/d > t}"""
+        seq = st.deref(self.eval(e.args[0], st))
+        d = to_z3(self.eval(e.args[1], st), RealK)
+        t = to_z3(self.eval(e.args[2], st), RealK)
+        i = z3.Int(f"i!cg{next(_fresh_counter)}")
+        return self.count_true(z3.Lambda([i], z3.Select(seq.arr, i) / d > t), seq.len, st)
+
     # ---- methods
     def m_add(self, e, recv, st):
         s = st.heap[recv.addr]
@@ -1831,6 +1897,7 @@ def solve(ob, timeout_ms=20000, want_model=True, stage=1):
     s.set("timeout", min(timeout_ms, 8000))
     for f in ob.pc:
         s.add(f)
+    add_distinct(s)
     s.add(z3.Not(ob.goal))
     r = s.check()
     dt = time.time() - t0
@@ -1841,9 +1908,16 @@ def solve(ob, timeout_ms=20000, want_model=True, stage=1):
     return "undecided", "z3-5.1(api)", dt, None
 
 
+def add_distinct(s):
+    """string literals / enum members are pairwise distinct constants of the uninterpreted sort Str"""
+    if len(_str_consts) > 1:
+        s.add(z3.Distinct(*_str_consts.values()))
+
+
 def solve_second(ob, timeout_ms=20000):
     """stage 2 (after the finite-universe refutation attempt): other solvers on the same query"""
     s = z3.Solver()
+    add_distinct(s)
     for f in ob.pc:
         s.add(f)
     s.add(z3.Not(ob.goal))
